@@ -59,6 +59,15 @@ func plans(id, tier string) (Plan, bool) {
 			{Pkg: pkgV2, Harness: "c03_bytes", Shards: pick(2, 8)},
 			{Pkg: pkgV2, Harness: "c03_names", Shards: 1},
 		}}, true
+	case "C05":
+		jobs := []Job{
+			{Pkg: pkgV2, Harness: "c05_tokens", Shards: 16},
+			{Pkg: pkgV2, Harness: "c05_match", Params: "mode=global", Shards: 16},
+			{Pkg: pkgV2, Harness: "c05_match", Params: "mode=scenarios", Shards: pick(4, 8)},
+			{Pkg: pkgV2, Harness: "c05_match", Params: "mode=perline", Shards: pick(4, 16)},
+			{Pkg: pkgV2, Harness: "c05_match", Params: "mode=pairs", Shards: pick(8, 16)},
+		}
+		return Plan{Level: "exploration", Jobs: jobs}, true
 	case "C07":
 		return Plan{Level: "exploration", Jobs: []Job{
 			{Pkg: pkgV2, Harness: "c07_small", Shards: pick(6, 16)},
